@@ -56,9 +56,9 @@ def spec_product(signature, xk, yk, keep=lambda kx, ky, s: True, keyout=lambda k
     return res
 
 
-def operands(signature, xk, yk, extra_attrs=None):
+def operands(signature, xk, yk, extra_attrs=None, lazy=False):
     d = len(signature)
-    alg = rep_algebra(d, extra_attrs=dict({"signs": sign_table_obj(signature), "signature": list(signature)}, **(extra_attrs or {})))
+    alg = rep_algebra(d, extra_attrs=dict({"signs": sign_table_obj(signature, lazy=lazy), "signature": list(signature)}, **(extra_attrs or {})))
     x = mv_obj(alg, tuple(xk), [pv_atom(f"a{k}") for k in xk])
     y = mv_obj(alg, tuple(yk), [pv_atom(f"b{k}") for k in yk])
     return alg, x, y
@@ -80,9 +80,9 @@ def result_polys(out, c, fn):
     return ("return", res)
 
 
-def run_product(ctx, repo, codegen_name, signature, xk, yk, c, unary=False):
+def run_product(ctx, repo, codegen_name, signature, xk, yk, c, unary=False, lazy=False):
     fn = ctx.func(f"codegen.{codegen_name}")
-    alg, x, y = operands(signature, xk, yk)
+    alg, x, y = operands(signature, xk, yk, lazy=lazy)
     it = make_interp(repo)
     it.algebra = alg
     try:
@@ -116,7 +116,7 @@ def compare_result(ctx, c, fn, got, want, what):
                   (f" (+{len(problems) - 4} more)" if len(problems) > 4 else ""), fn, wrong_blades=len(problems))
 
 
-@rule("C02.table", props=["C02"], min_instances=4, mutants=[
+@rule("C02.table", props=["C02"], min_instances=5, mutants=[
     ("overwrite instead of accumulate", ("codegen", "                res[key_out] += termstr", "                res[key_out] = termstr")),
     ("polarity sign < 0 kept positive", ("codegen", "termstr = vx * vy if sign > 0 else (- vx * vy)", "termstr = vx * vy if sign != 0 else (- vx * vy)")),
     ("accumulate on kx | ky", ("codegen", "def codegen_product(x, y, filter_func=None, sign_func=None, keyout_func=operator.xor):", "def codegen_product(x, y, filter_func=None, sign_func=None, keyout_func=operator.or_):")),
@@ -140,6 +140,11 @@ def table(ctx):
         c = f"codegen.{cg}#table:{rep_name}"
         got = run_product(ctx, repo, cg, signature, xk, yk, c)
         compare_result(ctx, c, fn, got, spec_product(signature, xk, yk), "geometric product")
+    # the same with a lazily filled sign table (the kind of table algebras above six dimensions have)
+    signature, xk, yk = REPS["sparse-overlap[+,-,+]"]
+    c = f"codegen.{cg}#table:lazy-sign-table"
+    got = run_product(ctx, repo, cg, signature, xk, yk, c, lazy=True)
+    compare_result(ctx, c, fn, got, spec_product(signature, xk, yk), "geometric product with a lazily filled sign table (d > 6)")
 
 
 # --------------------------------------------------------------------------- structural loop rule
